@@ -70,6 +70,37 @@ theorem aggMax_maximal (vo : VOps V) (hirr : ∀ a, vo.lt a a = false)
     (vs : List V) (r : V) (h : aggMax vo vs = some r) : IsMaximal vo.lt vs r :=
   aggPick_extremal (fun x c => vo.lt c x) hirr (fun a b c h1 h2 => htr c b a h2 h1) vs r h
 
+/-- under a strict total order on the occurring values the choice is unique, hence independent of the listing order -/
+theorem aggPick_perm_total (better : V → V → Bool)
+    (hirr : ∀ a, better a a = false) (htr : ∀ a b c, better a b = true → better b c = true → better a c = true)
+    (vs vs' : List V) (hp : vs.Perm vs')
+    (htot : ∀ a ∈ vs, ∀ b ∈ vs, a ≠ b → better a b = true ∨ better b a = true) :
+    aggPick better vs = aggPick better vs' := by
+  cases h : aggPick better vs with
+  | none =>
+    have := (aggPick_none better vs).mp h
+    subst this
+    have := hp.nil_eq
+    subst this
+    rfl
+  | some r =>
+    cases h' : aggPick better vs' with
+    | none =>
+      have := (aggPick_none better vs').mp h'
+      subst this
+      have := hp.symm.nil_eq
+      subst this
+      cases h
+    | some r' =>
+      have e1 := aggPick_extremal better hirr htr vs r h
+      have e2 := aggPick_extremal better hirr htr vs' r' h'
+      have hr' : r' ∈ vs := hp.mem_iff.mpr e2.1
+      by_cases hne : r = r'
+      · rw [hne]
+      · rcases htot r e1.1 r' hr' hne with hb | hb
+        · have := e2.2 r (hp.mem_iff.mp e1.1); rw [hb] at this; cases this
+        · have := e1.2 r' hr'; rw [hb] at this; cases this
+
 /-! ### most recent -/
 
 /-- invariant of the most-recent scan -/
